@@ -25,11 +25,11 @@ def main(tier):
                          bounds={'files': [0, 1, 2, 7, 33, 100, 257, 513, 1025, 3000], 'completion orders': 'as submitted / reversed / interleaved from both ends / rotated',
                                  'failing file': 'none / first / middle / last', 'executor': 'own / caller-supplied', 'workers': 'stubbed (per-file tags)'}))
     for hmode in range(3):
-        for b0 in range(7):
+        for b0 in range(8):
             jobs.append(dict(path=H, fname='_c13_history', params={'n': 1, 'hmode': hmode, 'b0': b0}, timeout=300, self_reach=True,
                              unblock=['open', 'os.mkdir', 'os.remove', 'shutil.rmtree', 'os.listdir', 'os.scandir', 'os.rmdir', '_thread.start_new_thread'],
                              label=f'histories of three batches on real files, {["sequential", "own thread pool", "caller-supplied thread pool"][hmode]}, first batch #{b0}',
-                             bounds={'batches': '7 kinds (readable files in several orders, a gzip file that fails part-way, a missing file, an empty batch)', 'history length': 3,
+                             bounds={'batches': '8 kinds (readable files in several orders, a gzip file that fails part-way, a missing file, an empty batch, two files whose contents were exchanged on disk since the last batch)', 'history length': 3,
                                      'mode': ['sequential', 'threads', 'caller-supplied ThreadPoolExecutor'][hmode], 'oracle': 'specs/kmers_spec.py on the contigs written to each file'}))
     jobs.sort(key=lambda j: -j['timeout'])
     xprop.run_jobs(run, jobs, rung=tier)
